@@ -6,6 +6,7 @@ import (
 	"encoding/json"
 	"fmt"
 	"math/big"
+	"math/bits"
 	"runtime/debug"
 	"sort"
 	"strings"
@@ -84,12 +85,12 @@ func init() {
 	// through shared memory: anything workers share here would either be reported by the race detector or, worse,
 	// order the workers and hide races of the code under test.
 	in := func(buf []trinary.Trits, nonce uint64) {
-		if curStub.Load() == nil || len(buf) != 64 {
+		if curStub.Load() == nil || len(buf) != bits.UintSize {
 			return
 		}
 		st := curStub.Load()
 		rec := inputRec{base: nonce}
-		for i := 0; i < 64; i++ {
+		for i := 0; i < len(buf); i++ {
 			if len(buf[i]) < ref.HashLen {
 				return
 			}
@@ -291,7 +292,13 @@ func Run(t *testing.T, cfg *Config, choices []int, replayMode bool, journal func
 				bubblePanic = fmt.Sprint(r)
 			}
 		}()
-		synctest.Test(t, func(t *testing.T) { w.simulate(choices) })
+		synctest.Test(t, func(t *testing.T) {
+			if cfg.Crowd > 1 {
+				w.simulateCrowd(choices)
+			} else {
+				w.simulate(choices)
+			}
+		})
 	}()
 	curStub.Store(nil)
 	if bubblePanic != "" {
@@ -515,18 +522,25 @@ func (w *world) simulate(choices []int) {
 			}
 			break
 		}
-		// auto flavour: actors waiting for a sync.Mutex are parked at the lock-wait site and stay enabled; if
-		// nothing but lock waiters is left and none of them gets the lock, that is a deadlock
-		allLockWait := !w.returned
+		// auto flavour: actors waiting for a sync.Mutex or a channel are parked at a wait site and stay enabled (when
+		// picked they try again). If nothing but such waiters is left while Mine is in flight, the clock is run once (one
+		// of them may be waiting for a timer) and then, if several rounds of polls change nothing, that is a deadlock.
+		allWaiting := !w.returned
 		for _, e := range en {
-			if e.Site != kernel.LockWaitSite {
-				allLockWait = false
+			if !kernel.IsWaitSite(e.Site) {
+				allWaiting = false
 			}
 		}
-		if allLockWait {
+		if allWaiting {
+			if lockSpins == 0 {
+				before := time.Now()
+				kernel.HiddenSleep(time.Hour)
+				w.simNs += int64(time.Since(before))
+				k.SetStrategy(kernel.RoundRobin{})
+			}
 			lockSpins++
 			if lockSpins > 4*len(en)+8 {
-				w.violate("deadlock", "every remaining actor is waiting for a sync.Mutex that is never released while Mine is in flight; "+describeBlocked(base), nil)
+				w.violate("deadlock", "every remaining actor is waiting for a lock or a channel that nobody will ever release / serve while Mine is in flight; "+describeBlocked(base), nil)
 				break
 			}
 		} else {
